@@ -1656,7 +1656,167 @@ fn main() {
         },
     );
 
+    // The embedder's other doors: `Value::from(x)` for every `From` impl, the `context!` macro,
+    // `Context::extend` / `remove`. Each must land on the same value as the serde conversion of
+    // the same Rust datum (equal, printed alike, read back into the same type unchanged).
+    run.family(
+        Family::new(
+            "from-impls",
+            1,
+            "every `From<T> for Value` (bool, &str, String, char, Cow<str>, every integer width incl. usize / isize, f32, f64, (), Option, Vec, BTreeSet, HashMap / BTreeMap with String / &str / u128 / i128 keys, &[Value]) on the boundary values of T, the `context!` macro (both forms), Context::extend / remove / contains_key / get: against the serde conversion of the same datum",
+        ),
+        |_item, acc: &mut Acc| {
+            let mut tera = Tera::default();
+            tera.add_raw_template("p", "{{ v }}|{% if v is integer %}i{% endif %}{% if v is float %}f{% endif %}{% if v is string %}s{% endif %}{% if v is bool %}b{% endif %}{% if v is array %}a{% endif %}{% if v is map %}m{% endif %}{% if v is none %}n{% endif %}")
+                .expect("probe template");
+            let show = |v: &Value| {
+                let mut c = Context::new();
+                c.insert_value("v", v.clone());
+                engine::render(&tera, "p", &c).show()
+            };
+            fn one<T: Into<Value> + Serialize + DeserializeOwned + PartialEq + Clone + Debug>(acc: &mut Acc, show: &dyn Fn(&Value) -> String, ty: &str, x: T, read_back: bool) {
+                let case = || json!({"type": ty, "datum": format!("{x:?}")});
+                let a = match engine::guarded(|| -> Value { x.clone().into() }) {
+                    Ok(v) => v,
+                    Err(p) => {
+                        acc.violation(format!("from-impl:panic:{ty}"), format!("Value::from panicked: {p}"), case);
+                        return;
+                    }
+                };
+                let b = match engine::guarded(|| Value::try_from_serializable(&x)) {
+                    Ok(Ok(v)) => v,
+                    other => {
+                        acc.violation(format!("from-impl:serde-refused:{ty}"), format!("the serde conversion of the same datum gave {:?}", other.map(|r| r.map_err(|e| e.to_string()))), case);
+                        return;
+                    }
+                };
+                if a != b || show(&a) != show(&b) {
+                    acc.violation(
+                        format!("from-impl:differs-from-serde:{ty}"),
+                        format!("Value::from gives {} (prints {}), the serde conversion gives {} (prints {})", format!("{a:?}"), show(&a), format!("{b:?}"), show(&b)),
+                        case,
+                    );
+                }
+                if read_back {
+                    match engine::guarded(|| T::deserialize(&a)) {
+                        Ok(Ok(y)) if y == x => {}
+                        other => acc.violation(
+                            format!("from-impl:read-back:{ty}"),
+                            format!("reading Value::from(x) back into {ty} gave {:?}", other.map(|r| r.map_err(|e| e.to_string()))),
+                            case,
+                        ),
+                    }
+                }
+                acc.case(true, "from-impl:same-as-serde");
+            }
+            macro_rules! ints {
+                ($($t:ty),*) => {$(
+                    for x in [<$t>::MIN, <$t>::MAX, 0 as $t, 1 as $t, <$t>::MAX / 2, <$t>::MIN / 2 + 1, <$t>::MAX - 1] {
+                        one(acc, &show, stringify!($t), x, true);
+                        one(acc, &show, concat!("Option<", stringify!($t), ">"), Some(x), true);
+                        one(acc, &show, concat!("Vec<", stringify!($t), ">"), vec![x, 0 as $t, x], true);
+                    }
+                )*};
+            }
+            ints!(u8, i8, u16, i16, u32, i32, u64, i64, usize, isize, u128, i128);
+            for x in [true, false] {
+                one(acc, &show, "bool", x, true);
+            }
+            for x in [0.0f64, -0.0, 1.5, -2.5, 1e300, f64::MIN_POSITIVE, f64::MAX, 9007199254740993.0, f64::INFINITY, f64::NEG_INFINITY] {
+                one(acc, &show, "f64", x, true);
+            }
+            for x in [0.0f32, -0.0, 0.1, 1.5, f32::MAX, f32::MIN_POSITIVE, 16777217.0, f32::INFINITY] {
+                one(acc, &show, "f32", x, true);
+            }
+            one(acc, &show, "()", (), true);
+            one(acc, &show, "Option<String>", None::<String>, true);
+            let strings = ["", "a", "é", "a<b", "\"q\"", "abcdefghijklmnopqrstu", "abcdefghijklmnopqrstuv", "ééééééééééé", "éééééééééé_", "日本語日本語日"];
+            for x in strings {
+                one(acc, &show, "String", x.to_string(), true);
+                one(acc, &show, "Cow<str>", std::borrow::Cow::<'static, str>::Owned(x.to_string()), true);
+                one(acc, &show, "Option<String>", Some(x.to_string()), true);
+                // &str: no DeserializeOwned for a borrowed str; compared through String
+                let a: Value = x.into();
+                let b = Value::try_from_serializable(&x).expect("a string serialises");
+                if a != b || show(&a) != show(&b) {
+                    acc.violation("from-impl:differs-from-serde:&str".to_string(), format!("Value::from(&str) gives {a:?}, serde {b:?}"), || json!({"datum": x}));
+                }
+                acc.case(true, "from-impl:same-as-serde");
+            }
+            for x in ['a', 'é', '日', '😀', '\0', '"'] {
+                one(acc, &show, "char", x, true);
+            }
+            one(acc, &show, "Vec<String>", strings.iter().map(|s| s.to_string()).collect::<Vec<_>>(), true);
+            one(acc, &show, "Vec<Vec<i64>>", vec![vec![], vec![i64::MIN, 0], vec![i64::MAX]], true);
+            one(acc, &show, "Vec<Option<u8>>", vec![None, Some(0u8), Some(u8::MAX)], true);
+            one(acc, &show, "BTreeSet<i64>", [3i64, -1, i64::MAX, i64::MIN].into_iter().collect::<std::collections::BTreeSet<_>>(), true);
+            one(acc, &show, "BTreeSet<String>", ["b", "a", "é"].iter().map(|s| s.to_string()).collect::<std::collections::BTreeSet<_>>(), true);
+            for n in [0usize, 1, 2, 6, 7, 9] {
+                let bm: BTreeMap<String, i64> = (0..n).map(|i| (format!("k{i}"), i as i64 - 3)).collect();
+                one(acc, &show, "BTreeMap<String, i64>", bm.clone(), true);
+                one(acc, &show, "HashMap<String, i64>", bm.into_iter().collect::<HashMap<_, _>>(), true);
+                let um: BTreeMap<u128, String> = (0..n).map(|i| (u128::MAX - i as u128 * 7, format!("v{i}"))).collect();
+                one(acc, &show, "BTreeMap<u128, String>", um, true);
+                let im: BTreeMap<i128, Vec<u8>> = (0..n).map(|i| (i128::MIN + i as i128 * 5, vec![i as u8])).collect();
+                one(acc, &show, "BTreeMap<i128, Vec<u8>>", im, true);
+            }
+            // &[Value]
+            {
+                let vs = vec![Value::from(1i64), Value::from("x"), Value::none()];
+                let a: Value = vs.as_slice().into();
+                let b: Value = vs.clone().into();
+                if a != b || show(&a) != show(&b) {
+                    acc.violation("from-impl:differs:&[Value]".to_string(), format!("Value::from(&[Value]) gives {a:?}, Vec<Value> gives {b:?}"), || json!({}));
+                }
+                acc.case(true, "from-impl:same-as-serde");
+            }
+            // context! (both forms), extend, remove, contains_key, get
+            {
+                let count = 3u8;
+                let name = "Bob <b>".to_string();
+                let by_macro = tera::context! { count, name => &name, list => &vec![1i32, -2] };
+                let mut by_hand = Context::new();
+                by_hand.insert("count", &count);
+                by_hand.insert("name", &name);
+                by_hand.insert("list", &vec![1i32, -2]);
+                if by_macro != by_hand {
+                    acc.violation("context-macro-differs".to_string(), "context! { .. } differs from the same inserts by hand".to_string(), || json!({"macro": format!("{by_macro:?}"), "by_hand": format!("{by_hand:?}")}));
+                }
+                acc.case(true, "context:macro");
+                let mut base = Context::new();
+                base.insert("count", &1u8);
+                base.insert("other", &"kept");
+                let mut ext = base.clone();
+                ext.extend(by_hand.clone());
+                let mut want = by_hand.clone();
+                want.insert("other", &"kept");
+                let mut problems = vec![];
+                if ext != want {
+                    problems.push("extend: entries of the source must be added and win over existing keys".to_string());
+                }
+                if ext.get("count") != Some(&Value::from(3u8)) || !ext.contains_key("other") || ext.contains_key("zz") || ext.get("zz").is_some() {
+                    problems.push("get / contains_key disagree with the entries".to_string());
+                }
+                let removed = ext.remove("count");
+                if removed != Some(Value::from(3u8)) || ext.contains_key("count") || ext.remove("count").is_some() {
+                    problems.push("remove must return the value once and drop the key".to_string());
+                }
+                let mut again = ext.clone();
+                again.extend(Context::new());
+                if again != ext {
+                    problems.push("extending with an empty context must change nothing".to_string());
+                }
+                for p in problems {
+                    acc.violation("context-api".to_string(), p, || json!({"base": format!("{base:?}"), "source": format!("{by_hand:?}"), "result": format!("{ext:?}")}));
+                }
+                acc.case(true, "context:extend-remove-get");
+            }
+        },
+    );
+
     if run.is_supervisor() {
+        let same = run.outcome("from-impls", "from-impl:same-as-serde");
+        run.guard("from-impls-compared", same > 300, format!("{same} (type, datum) pairs compared with the serde conversion"));
         let ok = run.outcome("instances", "roundtrip-ok");
         run.guard("roundtrips-executed", ok > 300, format!("{ok} instances went through both deserializers and came back identical"));
         let refused = run.outcome("bad-keys", "refused");
